@@ -138,7 +138,7 @@ class Ctx:
             out.append(b.path)
         return sorted(out)
 
-    def inlined_view(self):
+    def inlined_view(self, split=False):
         """a derived context whose core crate has every helper of inline_policy() inlined into its callers (bounded
         depth) and removed as a stand-alone body; None when there is nothing to inline"""
         from .inline import inline_calls
@@ -147,6 +147,8 @@ class Ctx:
         paths = set(self.inline_policy())
         crate = self.core
         done = {}
+        # decision splitting applies to the planners' entry points (the iteration-level selections live there)
+        split_targets = {m.path for p in self.planners() for m in p['entry']} if split else set()
 
         def pick(cb):
             return cb.path in paths
@@ -156,11 +158,15 @@ class Ctx:
                 return done[b.path]
             done[b.path] = b            # cycle guard
             nb = inline_calls(b, pick, crate, max_rounds=24, sub=lambda cb: resolved(cb, depth + 1) if depth < 4 else cb) if paths else b
-            if b.kind != 'Closure' or True:
-                nb2 = desugar_adaptors(nb, crate)
-                if nb2 is not nb:
-                    nb2.inlined_from = set(getattr(nb, 'inlined_from', set())) | set(getattr(nb2, 'inlined_from', set()))
-                    nb = nb2
+            nb2 = desugar_adaptors(nb, crate)
+            if nb2 is not nb:
+                nb2.inlined_from = set(getattr(nb, 'inlined_from', set())) | set(getattr(nb2, 'inlined_from', set()))
+                nb = nb2
+            if split and b.path in split_targets:
+                from .inline import split_decisions
+                nb3 = split_decisions(nb)
+                if nb3 is not nb:
+                    nb = nb3
             done[b.path] = nb
             return nb
         bodies = []
@@ -178,7 +184,7 @@ class Ctx:
         if not used:
             return None
         # closures consumed by a desugared adaptor are analysed in place only
-        gone = {u for u in used if crate.body(u) is not None and crate.body(u).kind == 'Closure'}
+        gone = {u for u in used if not u.startswith('decision-split:') and crate.body(u) is not None and crate.body(u).kind == 'Closure'}
         bodies = [bj for bj in bodies if bj['path'] not in gone]
         for bj in bodies:
             for blk in bj['blocks']:
